@@ -410,10 +410,9 @@ Qed.
 
 Inductive trigger := TEmpty | TZero | TShortParity | TSizes | TUnknownDisk | TLock.
 
-(* `fires_code`: the condition as the code evaluates it; `fires`: the condition as the property states it.  They differ
-   for TShortParity only: the code compares the size REPORTED by parity_size (the recorded split sizes when the content file
-   has them), the property speaks of the parity FILE. *)
-Definition fires_code (t : trigger) (p : pre) : bool :=
+(* each trigger as the code evaluates it; since 03a455c the short-parity test uses the parity really present in the files
+   (p_parity_blocks = parity_valid_size / block size), in every content format *)
+Definition fires (t : trigger) (p : pre) : bool :=
   match t with
   | TEmpty => empty_trigger p
   | TZero => zero_trigger p
@@ -422,12 +421,6 @@ Definition fires_code (t : trigger) (p : pre) : bool :=
   | TUnknownDisk => p_content_found p && p_unknown_disk p
   | TLock => negb (p_lock_free p)
   end.
-
-Definition fires (t : trigger) (p : pre) : bool :=
-  match t with TShortParity => short_parity_disk p | _ => fires_code t p end.
-
-(* no recorded split sizes (or recorded sizes equal to the files): parity_size reports what is on disk *)
-Definition sizes_from_disk (p : pre) : Prop := p_parity_blocks p = p_parity_disk_blocks p.
 
 Definition overridden (t : trigger) (o : opts) : bool :=
   match t with
@@ -503,7 +496,7 @@ Proof.
     destruct k, l; split; discriminate.
 Qed.
 
-Lemma interlock_refuses_code : forall t o p, fires_code t p = true -> overridden t o = false ->
+Lemma interlock_refuses : forall t o p, fires t p = true -> overridden t o = false ->
   exitc Sync o p = ExRefused /\ forall e, In e (effects Sync o p) -> lock_or_log e.
 Proof.
   intros t o p F V.
@@ -532,17 +525,8 @@ Definition sync_can_start (o : opts) (p : pre) : Prop :=
   /\ N.leb (o_blockstart o) (p_blockmax p) = true
   /\ parity_all_access p = true.
 
-Lemma interlock_refuses_partial : forall t o p, (t = TShortParity -> sizes_from_disk p) ->
-  fires t p = true -> overridden t o = false ->
-  exitc Sync o p = ExRefused /\ forall e, In e (effects Sync o p) -> lock_or_log e.
-Proof.
-  intros t o p SD F V. apply (interlock_refuses_code t); [| exact V].
-  destruct t; try exact F. simpl in F. simpl. unfold short_parity_disk in F. unfold short_parity.
-  rewrite (SD eq_refl). exact F.
-Qed.
-
 Lemma interlock_overridden : forall o p, sync_can_start o p ->
-  (forall t, fires_code t p = true -> overridden t o = true) -> exitc Sync o p <> ExRefused.
+  (forall t, fires t p = true -> overridden t o = true) -> exitc Sync o p <> ExRefused.
 Proof.
   intros o p [C [CF [RD [BS PA]]]] OV R. apply sync_refused_iff in R. revert R. unfold sync_refuse_cond.
   rewrite C, CF, PA. simpl.
@@ -619,7 +603,7 @@ Definition ds_ok : diskscan := mkDS 3 0 0 0 0 0 0 false.
 Definition ds_gone : diskscan := mkDS 0 0 0 4 0 2 3 false.
 Definition ds_zero1 : diskscan := mkDS 3 0 0 0 1 0 0 true.
 Definition p0 (disks : list diskscan) (pblocks : list N) : pre :=
-  mkPre true true 2 2 true true false false false false 0 disks true 9 7 [true; true] [true; true] pblocks pblocks [false; true] [false; true] false [0; 1] false false 0 false false true
+  mkPre true true 2 2 true true false false false false 0 disks true 9 7 [true; true] [true; true] pblocks [false; true] [false; true] false [0; 1] false false 0 false false true
         [] [] [false; false] [] true [].
 
 Example ex_sync_proceeds :
@@ -640,7 +624,7 @@ Definition o_force : opts := mkOpts true true true true false false false false 
 Example ex_overridden_proceeds :
   exitc Sync o_force (p0 [ds_zero1; ds_gone] [9; 6]) = ExOk /\
   sync_can_start o_force (p0 [ds_zero1; ds_gone] [9; 6]) /\
-  (forall t, fires_code t (p0 [ds_zero1; ds_gone] [9; 6]) = true -> overridden t o_force = true) /\
+  (forall t, fires t (p0 [ds_zero1; ds_gone] [9; 6]) = true -> overridden t o_force = true) /\
   fires TEmpty (p0 [ds_zero1; ds_gone] [9; 6]) = true /\ fires TZero (p0 [ds_zero1; ds_gone] [9; 6]) = true /\
   fires TShortParity (p0 [ds_zero1; ds_gone] [9; 6]) = true.
 Proof.
@@ -653,7 +637,7 @@ Definition it_unsel : fixitem := mkFI 0 3 OFile false true false false FRecovera
 Definition it_bad : fixitem := mkFI 0 4 OFile true false false true FUnrecoverable true false true [].
 Definition o_fix : opts := mkOpts true false false false false false false false false false false false 0 0 true [true; false] false false false false.
 Definition p_fix : pre :=
-  mkPre true true 2 2 true true false false false false 0 [ds_ok; ds_ok] false 9 9 [true; true] [true; true] [9; 9] [9; 9] [false; false] [false; false] false [] false false 0 false false false
+  mkPre true true 2 2 true true false false false false 0 [ds_ok; ds_ok] false 9 9 [true; true] [true; true] [9; 9] [false; false] [false; false] false [] false false 0 false false false
         [it_missing; it_unsel; it_bad] [(0, 2); (1, 2)] [false; true] [] true [].
 Example ex_fix :
   run_full Fix o_fix p_fix =
@@ -668,29 +652,38 @@ Qed.
 
 Example ex_check_readonly : run Check o0 (p0 [ds_ok; ds_gone] [9; 2]) = ([WLog; WLock], ExOk).
 Proof. vm_compute. reflexivity. Qed.
-Example ex_touch : run Touch o0 (mkPre true true 1 1 true true false false false false 0 [ds_ok] false 3 3 [true] [true] [3] [3] [false] [false] false [] false false 0 false false false
+Example ex_touch : run Touch o0 (mkPre true true 1 1 true true false false false false 0 [ds_ok] false 3 3 [true] [true] [3] [false] [false] false [] false false 0 false false false
                                         [] [] [false] [(0, 5)] true []) = ([WLog; WLock; WData 0 5 KUtime; WContent 0], ExOk).
 Proof. vm_compute. reflexivity. Qed.
 Example ex_lock_trace :
   snd (lock_step (lock_run None [Try 1]) (Try 2)) = false /\ snd (lock_step (lock_run None [Try 1; Finish 1]) (Try 2)) = true.
 Proof. vm_compute. auto. Qed.
 
-(* The full-strength statement about the parity FILE is false for the code: with recorded split sizes (version-3 content)
-   parity_size reports the recorded size, the test passes, and sync re-grows the truncated file.  Witness: two levels,
-   9 blocks allocated, 7 used; the content file records 9 blocks for both; level 1 is only 2 blocks long on disk. *)
-Definition p_recorded : pre :=
-  mkPre true true 2 2 true true false false false false 0 [ds_ok; ds_ok] false 9 7 [true; true] [true; true] [9; 9] [9; 2] [false; true] [false; false]
-        false [] false false 0 false false false [] [] [false; false] [] true [].
-Definition o_plain : opts := mkOpts true false false false false false false false false false false false 0 0 false [] false false false false.
-
-Lemma interlock_refuses_refuted : exists t o p,
-  fires t p = true /\ overridden t o = false /\ exitc Sync o p = ExOk /\ In (RszParity 1) (effects Sync o p).
+(* the parity really present: a split shorter than recorded ends the count; the rule before 03a455c (recorded sizes) did not
+   see a truncated file *)
+Lemma valid_size_le_recorded : forall sp, valid_size sp <= recorded_size sp.
 Proof.
-  exists TShortParity, o_plain, p_recorded. vm_compute. repeat split; auto.
+  induction sp as [| [r d] t IH]; simpl; [lia |].
+  destruct r as [r |]; simpl.
+  - destruct (N.ltb d r) eqn:E; [apply N.ltb_lt in E; lia | lia].
+  - rewrite N.ltb_irrefl. lia.
 Qed.
 
-Example ex_partial_hyp : sizes_from_disk (p0 [ds_ok; ds_ok] [9; 6]) /\ fires TShortParity (p0 [ds_ok; ds_ok] [9; 6]) = true
-  /\ overridden TShortParity o0 = false.
+Lemma valid_size_all_present : forall sp,
+  (forall r d, In (Some r, d) sp -> r <= d) -> valid_size sp = recorded_size sp.
+Proof.
+  induction sp as [| [r d] t IH]; simpl; intros H; [reflexivity |].
+  destruct r as [r |]; simpl.
+  - assert (L : r <= d) by (apply H; left; reflexivity).
+    destruct (N.ltb d r) eqn:E; [apply N.ltb_lt in E; lia |]. rewrite IH; [reflexivity | intros; apply H; right; assumption].
+  - rewrite N.ltb_irrefl. rewrite IH; [reflexivity | intros; apply H; right; assumption].
+Qed.
+
+Example ex_valid_size :
+  valid_blocks 1024 [(Some 9216, 2048)] = 2 /\ recorded_size [(Some 9216, 2048)] / 1024 = 9
+  /\ valid_blocks 1024 [(Some 4096, 4096); (Some 5120, 1024); (Some 2048, 2048)] = 5
+  /\ valid_blocks 1024 [(Some 4096, 0); (Some 5120, 5120)] = 0
+  /\ valid_blocks 1024 [(None, 7168)] = 7.
 Proof. vm_compute. auto. Qed.
 
 (* ------------------------------------------------------------------------------------------- the lock FILE
